@@ -443,3 +443,74 @@ func (e *Engine) yamlCarriedResult(methods map[string]bool, tag string) *FuncRes
 	res.Obligs = ctx.obligs
 	return res
 }
+
+// siblingCopyResult (C17): disjunction_as_options turns one option into one option per branch. The
+// siblings must not share mutable structure (a later rule applied to one of them - rename_arguments,
+// array_to_append ... write through Value.Argument - would change the others: "options not selected by a
+// rule are unchanged"). Structural obligation over go/ssa: the option appended in each iteration is built
+// from a deep copy taken IN that iteration - the loop that appends to the result contains its own call of
+// Option.DeepCopy (whose independence is C18's claim) - and no such copy is hoisted out of the loop.
+func (e *Engine) siblingCopyResult() *FuncResult {
+	ctx := newCtx(e, e.anyFunction())
+	ctx.fnKey = "c17-sibling-copies"
+	res := &FuncResult{Key: "c17-sibling-copies", Ctx: ctx}
+	for _, key := range []string{"option.disjunctionAsOptions", "option.disjunctionStructAsOptions"} {
+		ok := false
+		if fn := e.fnByKey[key]; fn != nil {
+			f := &Frame{ctx: ctx, fn: fn, tmap: TMap{}, vals: map[ssa.Value]Val{}}
+			f.analyzeLoops()
+			isCopy := func(in ssa.Instruction) bool {
+				c, isCall := in.(*ssa.Call)
+				if !isCall {
+					return false
+				}
+				sc := c.Call.StaticCallee()
+				return sc != nil && (funcKey(sc) == "ast.(*Option).DeepCopy" || funcKey(sc) == "ast.Option.DeepCopy")
+			}
+			copiesOutside := 0
+			inAnyLoop := map[*ssa.BasicBlock]bool{}
+			for _, li := range f.loops {
+				for b := range li.body {
+					inAnyLoop[b] = true
+				}
+			}
+			for _, b := range fn.Blocks {
+				for _, in := range b.Instrs {
+					if isCopy(in) && !inAnyLoop[b] {
+						copiesOutside++
+					}
+				}
+			}
+			appendLoops, good := 0, 0
+			for _, li := range f.loops {
+				appends, copies := false, false
+				for b := range li.body {
+					for _, in := range b.Instrs {
+						if c, isCall := in.(*ssa.Call); isCall {
+							if bi, isB := c.Call.Value.(*ssa.Builtin); isB && bi.Name() == "append" && len(c.Call.Args) > 0 {
+								if sl, isSl := c.Call.Args[0].Type().Underlying().(*types.Slice); isSl {
+									if nt, isN := sl.Elem().(*types.Named); isN && nt.Obj().Name() == "Option" {
+										appends = true
+									}
+								}
+							}
+						}
+						if isCopy(in) {
+							copies = true
+						}
+					}
+				}
+				if appends {
+					appendLoops++
+					if copies {
+						good++
+					}
+				}
+			}
+			ok = appendLoops > 0 && good == appendLoops && copiesOutside == 0
+		}
+		ctx.addOblig("flow", key+":every-sibling-option-is-built-from-its-own-deep-copy", BoolLit(ok), "internal/veneers/option/actions.go")
+	}
+	res.Obligs = ctx.obligs
+	return res
+}
